@@ -64,4 +64,32 @@ example : estimateWF 488365200000000000 3000000 = true ∧
     estimateWF 0 63999996185 = true ∧ estimateWF 0 63999996186 = false := by
   decide
 
+/-- every offset of magnitude below 2^31 s: the duration recovered by `EstimatedCaptureClockOffsetDuration`
+    from the Q32.32 value stored by `NewAbsCaptureTimeExtensionWithCaptureClockOffset` is the given one or
+    one nanosecond closer to zero; the sign is never flipped -/
+theorem c18_offset_spec (d : Int64) (h : offsetOk d.toInt = true) :
+    (0 ≤ d.toInt → 0 ≤ (decodeOffset (encodeOffset d)).toInt ∧ (decodeOffset (encodeOffset d)).toInt ≤ d.toInt ∧
+        d.toInt - (decodeOffset (encodeOffset d)).toInt ≤ 1) ∧
+    (d.toInt < 0 → (decodeOffset (encodeOffset d)).toInt ≤ 0 ∧ d.toInt ≤ (decodeOffset (encodeOffset d)).toInt ∧
+        (decodeOffset (encodeOffset d)).toInt - d.toInt ≤ 1) :=
+  offset_ok d h
+
+/-- the predicate the driver evaluates on the real code holds of the model, for every `int64` duration -/
+theorem c18_offset (d : Int64) :
+    offsetOkObs d ⟨encodeOffset d, decodeOffset (encodeOffset d), some (decodeOffset (encodeOffset d))⟩ = true := by
+  by_cases h : offsetOk d.toInt = true
+  · have := offset_ok d h
+    simp only [offsetOkObs, Pred.C18.offset, h, Bool.not_true, Bool.false_or, Bool.and_eq_true, Bool.or_eq_true,
+      Bool.not_eq_true', decide_eq_true_eq, decide_eq_false_iff_not]
+    omega
+  · simp [offsetOkObs, h]
+
+/-- non-vacuity: the two offsets of TestAbsCaptureTimeExtension_Roundtrip come back exactly, 1 ns is lost
+    (0x00000000_00000004 → 0 ns), the bounds of the range are as stated -/
+example : decodeOffset (encodeOffset 1250000000) = 1250000000 ∧ decodeOffset (encodeOffset (-250000000)) = -250000000 ∧
+    encodeOffset 1 = 4 ∧ decodeOffset 4 = 0 ∧
+    offsetOk (2147483647999999999 : Int64).toInt = true ∧ offsetOk (-2147483647999999999 : Int64).toInt = true ∧
+    offsetOk (2147483648000000000 : Int64).toInt = false := by
+  decide
+
 end Rtp.Props.C18
